@@ -222,8 +222,9 @@ fn main() {
     let mut state_list: Vec<Vec<Argv>> = states.values().cloned().collect();
     state_list.sort_by_key(|s| (s.len(), s.clone()));
     if args.tier == Tier::Quick {
-        // quick: empty, all single-step states, and two-step states whose two ops touch different keys
-        state_list.retain(|s| s.len() < 2 || s[0][1] != s[1][1]);
+        // quick: empty, all single-step states, two-step states whose two ops touch different keys, and every value
+        // of every type with a TTL on it (second op = EXPIRE of the same key)
+        state_list.retain(|s| s.len() < 2 || s[0][1] != s[1][1] || s[1][0] == b"EXPIRE");
     }
 
     // 1b. configuration states: every numeric server parameter (as listed by CONFIG GET *) set to 1, alone and in
